@@ -87,6 +87,12 @@ CHECKS = {
         "technique": SMT + "; polynomial identities modulo c^2+s^2=1 in the rotation",
         "design_ref": "DESIGN.md section 5 (C10)",
     },
+    "C14": {
+        "text": "Bounded symbolic check: a real Elastic / Thermal simulation is built concretely and ALL its caches are populated (group caches of every matrix type, assembled K, C, M, F, sparsity maps, a solve, a saved iteration, results); a sequence of public mutating operations (material parameters, density, thickness, Rayleigh coefficients, Translate / Rotate / Symmetry, direct coordinate assignment on the mesh and on the groups, mesh replacement, Bc_Init + re-adding conditions, Save_Iter / Set_Iter across a mesh change) is executed with SYMBOLIC arguments, re-populating the caches between operations; a second simulation is constructed from the public state of the first and K, C, M, F, Neumann vector, Dirichlet data and results of an arbitrary (havoc) state are decided equal entrywise for all argument values. Models and meshes shared by two simulations: both observed.",
+        "note": "Trusted: Sym arithmetic, z3; the fresh simulation is built from coordinates / parameters read back from the mutated one (wrong motions are C08 / C10). Bound: sequences of length 1-2 (thorough: all ordered pairs, seed-drawn triples), small meshes. Outside: hyperelastic / inelastic / phase-field / beam simulations in the sequence, MPI gather. Known finding: group-level coordinate assignment cannot notify the simulation.",
+        "technique": SMT + "; symbolic operation arguments through the real mutators, equality with a freshly built simulation",
+        "design_ref": "DESIGN.md section 5 (C14)",
+    },
 }
 
 NOT_APPLICABLE = {
